@@ -96,14 +96,14 @@ func (h *HTTPSim) Close() {
 
 func (h *HTTPSim) event(ord int, raw, class, verdict, fault string) {
 	e := &Event{Session: h.Spec.Session, Sim: os.Getpid(), Ord: ord, Raw: raw,
-		Class: class, Verdict: verdict, Fault: fault, T: int64(time.Since(h.start))}
+		Class: class, Verdict: verdict, Fault: fault, T: time.Now().UnixNano()}
 	AppendEvent(h.Spec.Events, e)
 }
 
 // eventM logs an event on behalf of a member (HA pair).
 func (h *HTTPSim) eventM(ord int, raw, class, verdict, fault, member string) {
 	e := &Event{Session: h.Spec.Session + "/" + member, Sim: os.Getpid(), Ord: ord, Raw: raw,
-		Class: class, Verdict: verdict, Fault: fault, T: int64(time.Since(h.start))}
+		Class: class, Verdict: verdict, Fault: fault, T: time.Now().UnixNano()}
 	AppendEvent(h.Spec.Events, e)
 }
 
